@@ -220,6 +220,7 @@ def probe_class(kind):
             self._pv = {}
             self.close_returned_at = []       # monotonic time of every close() return (client threads only)
             self.close_raised = []
+            self.close_durations = []
             self.at_gate = threading.Event()
             base.__init__(self, dh)
             self._closing = _LoggedEvent(self)
@@ -266,19 +267,24 @@ def probe_class(kind):
                 return r
         def close(self):
             mine = threading.current_thread() is self
+            t0 = now()
             self._plog_add('CloseCall')
             try:
                 r = base.close(self)
             except BaseException as e:
                 self._plog_add('CloseRaise'); self.close_raised.append(type(e).__name__); raise
             with self._plock:
-                if not mine: self.close_returned_at.append(now())
+                if not mine:
+                    self.close_returned_at.append(now()); self.close_durations.append(now() - t0)
                 self._plog_add('CloseRet')
             return r
+        join_pause = 0                        # harness: delay after a successful join (widens the window that follows it)
         def join(self, timeout=None):
             self._plog_add('JoinBegin')
             r = base.join(self, timeout)
-            self._plog_add('Join', 0 if self.is_alive() else 1)
+            alive = self.is_alive()
+            self._plog_add('Join', 0 if alive else 1)
+            if not alive and self.join_pause: time.sleep(self.join_pause)
             return r
         # ---- worker side
         def run(self):
